@@ -75,6 +75,10 @@ type Request struct {
 	// Client/HostClient shouldn't use this field but should depend on the uri.scheme instead.
 	isTLS bool
 
+	// Set when a body stream reading from the connection was closed before the
+	// whole body had been read. Used by Server: the connection can't be reused.
+	bodyStreamUnread bool
+
 	// Use Host header (request.Header.SetHost) instead of the host from SetRequestURI, SetHost, or URI().SetHost
 	UseHostHeader bool
 
@@ -2401,6 +2405,9 @@ func (req *Request) closeBodyStream() error {
 		err = bsc.Close()
 	}
 	if rs, ok := req.bodyStream.(*requestStream); ok {
+		if !rs.drained() {
+			req.bodyStreamUnread = true
+		}
 		releaseRequestStream(rs)
 	}
 	req.bodyStream = nil
